@@ -24,6 +24,21 @@ print(k, m.hexdigest())")
     if [ "$h" != "$ref" ]; then echo "NONDETERMINISTIC $p procs=$procs: $h vs $ref"; bad=1; fi
   done
   echo "$p: $ref"
+  # no state carried between runs of one process: the second half of the indices, run in a fresh
+  # process that starts there, must match the second half of a process that ran the first half before
+  h=$((n/2))
+  a=$($D/s/zharness.bin -prop $p -count $n -maxgoroutines 1000000 2>/dev/null | python3 -c "
+import sys,json
+for l in sys.stdin:
+    if l[0]=='{':
+        o=json.loads(l)
+        if o['idx']>=$h: print(o['idx'],o['hash'],o['verdict'],o['steps'])" | sha256sum)
+  b=$($D/s/zharness.bin -prop $p -from $h -count $((n-h)) -procs 4 -maxgoroutines 1000000 2>/dev/null | python3 -c "
+import sys,json
+for l in sys.stdin:
+    if l[0]=='{':
+        o=json.loads(l); print(o['idx'],o['hash'],o['verdict'],o['steps'])" | sha256sum)
+  if [ "$a" != "$b" ]; then echo "CROSS-RUN STATE $p: suffix differs when the process starts at index $h"; bad=1; fi
 done
 # C12 (one run is ~10^5 loads): two runs, two processes
 for procs in 1 16; do $D/s/zharness.bin -prop C12 -count 2 -procs $procs 2>/dev/null | python3 -c "
